@@ -745,3 +745,118 @@ pub fn k_generator<'a>(a: SP<'a>, b: SP<'a>, s: SG<'a>) {
 pub fn k_atomic_roundtrip<'a>(a: SP<'a>, b: SP<'a>, s: SG<'a>) {
     out_keyed_total(a.into_keyed().atomic().end_atomic());
 }
+
+// ------------------------------------------------------------------------------------------
+// Scan-family operators INSIDE an atomic region (`atomic() .. end_atomic()`): the accumulator
+// (for keyed streams: the per-key state map) must survive tick boundaries exactly as outside.
+// ------------------------------------------------------------------------------------------
+pub fn x_at_scan<'a>(a: SP<'a>, b: SP<'a>, s: SG<'a>) {
+    out_total(
+        a.atomic()
+            .scan(
+                q!(|| 0i32),
+                q!(|acc, (k, v)| {
+                    *acc += v;
+                    Some((k, *acc))
+                }),
+            )
+            .end_atomic(),
+    );
+}
+pub fn x_at_limit<'a>(a: SP<'a>, b: SP<'a>, s: SG<'a>) {
+    out_total(a.atomic().limit(q!(2)).end_atomic());
+}
+pub fn x_at_enumerate<'a>(a: SP<'a>, b: SP<'a>, s: SG<'a>) {
+    out_total(a.atomic().enumerate().map(q!(|(i, (k, v))| (k, v * 10 + i as i32))).end_atomic());
+}
+pub fn x_at_generator<'a>(a: SP<'a>, b: SP<'a>, s: SG<'a>) {
+    out_total(
+        a.atomic()
+            .generator(
+                q!(|| 0i32),
+                q!(|acc, (k, v)| {
+                    *acc += v;
+                    if *acc >= 4 {
+                        Generate::Return((k, *acc))
+                    } else if v == 0 {
+                        Generate::Continue
+                    } else {
+                        Generate::Yield((k, *acc))
+                    }
+                }),
+            )
+            .end_atomic(),
+    );
+}
+/// `first` inside an atomic region; the optional is exported by one atomic snapshot per tick.
+pub fn x_at_first<'a>(a: SP<'a>, b: SP<'a>, s: SG<'a>) {
+    let p = a.location().clone();
+    let tick = p.tick();
+    a.atomic()
+        .first()
+        .snapshot_atomic(&tick, nondet!(/** output adapter: snapshot per tick, last value wins */))
+        .into_singleton()
+        .all_ticks()
+        .map(q!(|v| crate::enc::enc(v)))
+        .embedded_output("out");
+}
+pub fn k_at_scan<'a>(a: SP<'a>, b: SP<'a>, s: SG<'a>) {
+    out_keyed_total(
+        a.into_keyed()
+            .atomic()
+            .scan(
+                q!(|| 0i32),
+                q!(|acc, v| {
+                    *acc = acc.wrapping_mul(3).wrapping_add(v);
+                    Some(*acc)
+                }),
+            )
+            .end_atomic(),
+    );
+}
+pub fn k_at_enumerate<'a>(a: SP<'a>, b: SP<'a>, s: SG<'a>) {
+    out_keyed_total(a.into_keyed().atomic().enumerate().map(q!(|(i, v)| v * 10 + i as i32)).end_atomic());
+}
+pub fn k_at_limit<'a>(a: SP<'a>, b: SP<'a>, s: SG<'a>) {
+    out_keyed_total(a.into_keyed().atomic().limit(q!(1)).end_atomic());
+}
+pub fn k_at_generator<'a>(a: SP<'a>, b: SP<'a>, s: SG<'a>) {
+    out_keyed_total(
+        a.into_keyed()
+            .atomic()
+            .generator(
+                q!(|| 0i32),
+                q!(|acc, v| {
+                    *acc += v;
+                    if *acc >= 3 {
+                        Generate::Return(*acc)
+                    } else if v == 0 {
+                        Generate::Continue
+                    } else {
+                        Generate::Yield(*acc)
+                    }
+                }),
+            )
+            .end_atomic(),
+    );
+}
+pub fn k_at_first<'a>(a: SP<'a>, b: SP<'a>, s: SG<'a>) {
+    let p = a.location().clone();
+    out_keyed_bounded_value(&p, a.into_keyed().atomic().first().end_atomic());
+}
+pub fn k_at_fold_early_stop<'a>(a: SP<'a>, b: SP<'a>, s: SG<'a>) {
+    let p = a.location().clone();
+    out_keyed_bounded_value(
+        &p,
+        a.into_keyed()
+            .atomic()
+            .fold_early_stop(
+                q!(|| 0i32),
+                q!(|acc, v| {
+                    *acc = acc.wrapping_mul(3).wrapping_add(v);
+                    *acc >= 3
+                }),
+            )
+            .end_atomic(),
+    );
+}
